@@ -51,7 +51,7 @@ class SuperNetCombiner(nn.Module):
             cost_i = torch.tensor(0, dtype=torch.float32)
             for lname, node, layer in self._unique_leaf_modules[i]:
                 # TODO: this is constant and can be pre-computed for efficiency
-                v = vars(layer)
+                v = dict(vars(layer))
                 v.update(shapes_dict(node))
                 cost_i = cost_i + cost_fn_map[lname](v)
             cost = cost + (cost_i * self.theta_alpha[i])
